@@ -369,6 +369,11 @@ func itemIndependent(c *Ctx, rule string, anchors [][3]string) {
 
 // carriedDiag prints every loop-carried scalar of the program (calibration only).
 func carriedDiag(p *Prog) {
+	rc, nl := rangeCopyStores(p, p.AllFuncs())
+	fmt.Printf("range-copy: %d loops\n", nl)
+	for _, f := range rc {
+		fmt.Printf("range-copy %s %s at %s\n", f.fn.Key(), f.v.Name(), p.Pos(f.store))
+	}
 	sw, ncalls := argSwaps(p, p.AllFuncs())
 	fmt.Printf("arg-swap: %d calls examined\n", ncalls)
 	for _, s := range sw {
